@@ -205,16 +205,36 @@ inline bool isinf(double x)
 
 // ---- exceptions (types only; see __vstd_throw) -----------------------------------
 struct exception {};
-struct out_of_range: exception {};
-struct invalid_argument: exception {};
-struct bad_any_cast: exception {};
+struct logic_error: exception {};
+struct runtime_error: exception {};
+struct out_of_range: logic_error {};
+struct invalid_argument: logic_error {};
+struct length_error: logic_error {};
+struct bad_cast: exception {};
+struct bad_any_cast: bad_cast {};
+struct bad_weak_ptr: exception {};
+// which pending kinds a handler type catches (a handler for a base class catches the derived kinds too)
+template<class T> struct __exc_mask;
+template<> struct __exc_mask<out_of_range> { static const int value = 1 << VSTD_EXC_OUT_OF_RANGE; };
+template<> struct __exc_mask<invalid_argument> { static const int value = 1 << VSTD_EXC_INVALID_ARGUMENT; };
+template<> struct __exc_mask<length_error> { static const int value = 1 << VSTD_EXC_LENGTH; };
+template<> struct __exc_mask<bad_any_cast> { static const int value = 1 << VSTD_EXC_BAD_ANY_CAST; };
+template<> struct __exc_mask<bad_cast> { static const int value = 1 << VSTD_EXC_BAD_ANY_CAST; };
+template<> struct __exc_mask<bad_weak_ptr> { static const int value = 1 << VSTD_EXC_BAD_WEAK_PTR; };
+template<> struct __exc_mask<logic_error> { static const int value = (1 << VSTD_EXC_OUT_OF_RANGE) | (1 << VSTD_EXC_INVALID_ARGUMENT) | (1 << VSTD_EXC_LENGTH); };
+template<> struct __exc_mask<runtime_error> { static const int value = 0; };
+template<> struct __exc_mask<exception> { static const int value = 0x7ffffffe; };
 template<class T> struct __exc_kind;
-template<> struct __exc_kind<out_of_range> { static const int value = VSTD_EXC_OUT_OF_RANGE; };
-template<> struct __exc_kind<invalid_argument> { static const int value = VSTD_EXC_INVALID_ARGUMENT; };
 template<> struct __exc_kind<bad_any_cast> { static const int value = VSTD_EXC_BAD_ANY_CAST; };
 template<class T> inline bool __vstd_catch_t()
 {
-    return __vstd_catch(__exc_kind<typename decay<T>::type>::value) != 0;
+    const int mask = __exc_mask<typename decay<T>::type>::value;
+    for (int k = 1; k <= VSTD_EXC_LENGTH; ++k) {
+        if (((mask >> k) & 1) != 0 && __vstd_catch(k) != 0) {
+            return true;
+        }
+    }
+    return false;
 }
 
 // ---- string -----------------------------------------------------------------
@@ -1578,9 +1598,14 @@ private:
         ~U() {}
     } mU;
 };
-// unordered_set: only insert/count/size are used by libcellml; iteration order is not relied on.
+// unordered_set / unordered_map: iteration order is unspecified in the real library; the model uses the sorted containers.
 template<class K> class unordered_set: public set<K>
 {
+};
+template<class K, class V> class unordered_map: public map<K, V>
+{
+public:
+    using map<K, V>::map;
 };
 
 template<class... T> struct tuple;
